@@ -683,6 +683,7 @@ pub fn run(report: &Report) {
     batch_forms::<U8U16>(report, if q { 3 } else { 4 });
     batch_forms::<U8U32>(report, if q { 3 } else { 4 });
     batch_forms::<U32U64>(report, 3);
+    super::pyfront::sweep(report, "views", if q { 3 } else { 4 }, "every constructor that takes compressed words (8) on every word string up to the listed length over 6 words, and every call form that takes symbol / parameter arrays (3 coders x 2 forms) on every message up to length 4: a negative-stride view, a stride-2 view and an interior slice must be read like a contiguous copy", &["AnsCoder(words) |", "AnsCoder.encode_reverse"], &[]);
     super::pyfront::sweep(report, "ans_histories", if q { 4 } else { 5 },
         "Python AnsCoder: every history up to the listed depth over 16 pushes (single symbol, iid array, per-symbol parameter arrays incl. one row; 2 Gaussian + 2 categorical models), 3 pop forms (decode(model), decode(model, 2), decode(family, parameter arrays)), reload through get_compressed and clone, from the empty coder and from 3 imported word strings; at every node a clone is drained one symbol at a time against a Python list and must end with the initial words",
         &[], &[]);
